@@ -285,7 +285,7 @@ func NewProver(fn *ssa.Function, path *Path, site ssa.Instruction, extra []Fact)
 			if !ok || p.found[call] {
 				continue
 			}
-			if cal := StaticCallee(&call.Call); cal != nil && cal.Pkg != nil && cal.Pkg.Pkg.Path() == "bytes" && (cal.Name() == "Index" || cal.Name() == "LastIndex") {
+			if cal := StaticCallee(&call.Call); cal != nil && cal.Pkg != nil && cal.Pkg.Pkg.Path() == "bytes" && (cal.Name() == "Index" || cal.Name() == "LastIndex" || cal.Name() == "IndexByte" || cal.Name() == "LastIndexByte") {
 				if ok, _ := p.Prove(p.Lin(call)); ok {
 					p.foundFacts(call)
 				}
@@ -422,7 +422,7 @@ func (p *Prover) foundFacts(v ssa.Value) {
 		return
 	}
 	cal := StaticCallee(&call.Call)
-	if cal == nil || cal.Pkg == nil || cal.Pkg.Pkg.Path() != "bytes" || (cal.Name() != "Index" && cal.Name() != "LastIndex") {
+	if cal == nil || cal.Pkg == nil || cal.Pkg.Pkg.Path() != "bytes" || (cal.Name() != "Index" && cal.Name() != "LastIndex" && cal.Name() != "IndexByte" && cal.Name() != "LastIndexByte") {
 		return
 	}
 	if p.found[call] {
@@ -432,7 +432,11 @@ func (p *Prover) foundFacts(v ssa.Value) {
 	r := p.Lin(call)
 	p.add(r, p.name(call)+" ≠ -1 ⇒ ≥ 0")
 	// r + len(needle) ≤ len(haystack)
-	p.add(p.LenOf(call.Call.Args[0]).Add(r, -1).Add(p.LenOf(call.Call.Args[1]), -1), "a match of the needle lies inside the haystack")
+	needle := lconst(1)
+	if !strings.HasSuffix(cal.Name(), "Byte") {
+		needle = p.LenOf(call.Call.Args[1])
+	}
+	p.add(p.LenOf(call.Call.Args[0]).Add(r, -1).Add(needle, -1), "a match of the needle lies inside the haystack")
 }
 
 func isIntVal(v ssa.Value) bool { return isIntType(v.Type()) }
